@@ -31,6 +31,8 @@ def body(ctx):
     c16.timers_and_timeout_around_the_handshake(ctx, prog)
     hv = []
     c17.process_timers(ctx, prog, hv)   # the negotiated heartbeat is obeyed: expiry after 2h of silence, a heartbeat after h idle
+    c17.several_expiries(ctx, prog, hv)
+    c17.timer_event_in_every_state(ctx, prog, hv)
     c17.activity(ctx, prog, hv)
     for what in sorted({x[0] for x in hv}):
         test, exp_desc = c17.hb_replay(what)
@@ -133,17 +135,16 @@ class HbRec(Opaque):
 
 def tune_arm(ctx, ex, prog, viol):
     """HandshakeState::Tune x symbolic frame: TuneOk then Open pushed iff negotiation succeeds; heartbeats get TuneOk.heartbeat"""
-    def hb_start(ex_, st, fn, argv):
-        h = deref(ex_, st, argv[0])
-        if not isinstance(h, HbRec):
-            return NotImplemented
-        h.started.append(argv[1])
-        return [(st, Unit())]
-    ex2 = io_executor(ctx, prog, extra=[(r'^HeartbeatTimers::start$', hb_start), (r'^Duration::from_secs$|^std::time::Duration::from_secs$', lambda e, s, f, a: [(s, Agg({0: a[0]}, 'DurationSecs'))])])
+    # the heartbeat timers are the real ones over a recording timer wheel (as in C17), so it does not matter in which unit the
+    # implementation hands the interval around
+    ex2 = io_executor(ctx, prog, extra=time_summaries())
     f = prog.method('HandshakeState', 'process')
-    hb = HbRec()
+    hbt = prog.types.fields('HeartbeatTimers')
+    KV = prog.types.variants('HeartbeatKind')
+    hb = Agg({hbt.index('timer'): TimerModel(), hbt.index('heartbeats'): mk_option()}, 'HeartbeatTimers', 'hbt')
     a = z3.BitVec('chan_a', 16)
     st, w = build_steady(prog, [], hb=hb)
+    st.roots['clock'] = Clock()
     o, (c_cm, c_fm, c_hb) = options_value(prog)
     on = prog.types.fields('ConnectionOptions')
     vhost = sym('opt.vhost', StrSort)
@@ -167,7 +168,7 @@ def tune_arm(ctx, ex, prog, viol):
         items = new_items(w1)
         hs = s.roots['hs'].value
         hsn = variant_name(prog, hs, 'HandshakeState')
-        started = w1.hb.started
+        started = [l for l in w1.hb.fields[hbt.index('timer')].log if l[0] == 'set']
         is_hb0 = z3.And(fs.is_kind('Heartbeat'), fs.chan('Heartbeat') == 0)
         if isinstance(rv, Panic):
             c = [z3.BoolVal(False)]
@@ -184,11 +185,16 @@ def tune_arm(ctx, ex, prog, viol):
                 kept = hs.payloads[hs.disc].fields[0]
                 c += [kept.fields[tn2.index('channel_max')].bv == e_cm, kept.fields[tn2.index('frame_max')].bv == e_fm, kept.fields[tn2.index('heartbeat')].bv == e_hb]
             # heartbeat timers started with the negotiated interval, and only when it is non-zero
-            c.append(z3.BoolVal(len(started) <= 1))
-            c.append((e_hb != 0) == z3.BoolVal(len(started) == 1))
-            if len(started) == 1:
-                secs = started[0].fields[0]
-                c.append(secs.bv == z3.ZeroExt(48, e_hb))
+            c.append(z3.BoolVal(len(started) in (0, 2)))
+            c.append((e_hb != 0) == z3.BoolVal(len(started) == 2))
+            # compared with the value the implementation put into TuneOk (shown equal to the negotiated one just above): the same
+            # term on both sides keeps the 128-bit multiplication out of the solver
+            sent_hb = method_of(prog, items[0])[2].fields[prog.types.fields('amq_protocol::protocol::connection::TuneOk').index('heartbeat')].bv if okf else e_hb
+            hns = z3.ZeroExt(112, sent_hb) * z3.BitVecVal(NS, 128)
+            for l in started:
+                c.append(l[2] == (2 * hns if KV[l[3].disc] == 'Rx' else hns))
+            if len(started) == 2:
+                c.append(z3.BoolVal(sorted(KV[l[3].disc] for l in started) == ['Rx', 'Tx']))
         elif out == 'Ok':
             c = [is_hb0, z3.BoolVal(hsn == 'Tune' and len(items) == 0 and len(started) == 0)]
         elif out == 'FrameMaxTooSmall':
